@@ -317,6 +317,25 @@ static size_t draw_n(vf_rng *r)
 static void normn_case(vf_rng *r)
 {
     char d[96];
+    /* the judged calls below are PRECEDED by calls whose vector holds an infinity (legal; the norm is +inf), at each position: what such a call leaves behind in the
+       calling thread (seeded change C11-O: flush-to-zero set inside the routine and not restored on the early return) meets the subnormal regimes that follow; the
+       control state itself is compared around the case by vf_common.h */
+    {
+        a_real v[5] = {(a_real)3, (a_real)-4, (a_real)0.5, (a_real)2, (a_real)-1};
+        for (int k = 0; k < 5; ++k)
+        {
+            a_real const keep = v[k];
+            a_real g, g2;
+            v[k] = k & 1 ? -(a_real)INFINITY : (a_real)INFINITY;
+            g = a_real_norm(5, v);
+            g2 = a_real_norm_(3, v, 2);
+            ++vf.evals;
+            VF_COUNT("norm-of-a-vector-with-an-infinite-component");
+            /* the VALUE for a non-finite argument is outside C11 ("for every finite argument"): recorded, not judged */
+            if (!(g == (a_real)INFINITY) || !((k % 2 == 0) ? g2 == (a_real)INFINITY : g2 == g2 && g2 < (a_real)INFINITY)) { VF_COUNT("norm-infinite-component-value-unexpected"); }
+            v[k] = keep;
+        }
+    }
     for (int i = 0; i < NPTS / 4; ++i)
     {
         size_t n = draw_n(r), c = 1 + (size_t)vf_below(r, 4);
